@@ -38,7 +38,7 @@ def decodeNode (a : Bytes) : Option (Bytes × Node) :=
     let parts := splitOn (0 : UInt8) rest
     match parts with
     | name :: kvs =>
-      if kind == 102 then some (name, .file)
+      if kind == 102 || kind == 108 then some (name, .file)   -- 'f' plain file; 'l' dangling symbolic link: neither is a package directory
       else
         let rec pairs : List Bytes → List (String × Bytes)
           | k :: v :: more => (match toString? k with | some s => (s, v) :: pairs more | none => pairs more)
